@@ -345,6 +345,17 @@ class FuncGen:
         if k == 'block':
             self.labels.append(('block', t))
             body = self.stmts(d - 1)
+            if p.surplus and r.random() < 0.25:
+                # the block never falls through: its only exit is a value-carrying branch taken with other operands (of other types)
+                # beneath the carried value, so the label's result slot is written by the branch alone
+                others = [x for x in p.types if x != t] or p.types
+                for _ in range(r.randint(1, 3)):
+                    body += self.leaf(r.choice(others))
+                body += self.expr(t, max(0, d - 1)) + [('br', 0)]
+                if r.random() < 0.3:
+                    body += self.dead(t, d - 2)
+                self.labels.pop()
+                return [('block', t)] + body + [('end',)]
             if r.random() < 0.5:
                 body += self.expr(t, d - 1) + self.expr(I32, d - 1) + [('br_if', 0)] + [('drop',)]
                 body += self.stmts(d - 2)
